@@ -93,11 +93,25 @@ Fixpoint insert_all (x : Z) (l : list Z) : list (list Z) :=
   match l with [] => [[x]] | y :: r => (x :: l) :: map (cons y) (insert_all x r) end.
 Fixpoint perms (l : list Z) : list (list Z) :=
   match l with [] => [[]] | x :: r => flat_map (insert_all x) (perms r) end.
-Fixpoint race_sched (ord : list Z) (i : nat) (mid : list MT.envop) : list MT.item :=
-  match ord, i with
-  | [], _ => map MT.Env mid                      (* fewer entries than i+1: [mid] happens after the pass *)
-  | k :: r, O => MT.Visit k mid :: map (fun k' => MT.Visit k' []) r
-  | k :: r, S i' => MT.Visit k [] :: race_sched r i' mid
+(* Go: "if a map entry is created during iteration, that entry may be produced during the iteration
+   or may be skipped": after [mid] the visits of the message IDs that [mid] registered are optional
+   (each at most once), all other visits happen (a key that is gone when its turn comes is a no-op) *)
+Definition started_in (mid : list MT.envop) : list Z :=
+  fold_right (fun o acc => match o with
+                           | MT.Start k _ => if existsb (Z.eqb k) acc then acc else k :: acc
+                           | MT.End _ => acc
+                           end) [] mid.
+Fixpoint subsets (l : list Z) : list (list Z) :=
+  match l with [] => [[]] | x :: r => let s := subsets r in s ++ map (cons x) s end.
+Definition visit0 (k : Z) : MT.item := MT.Visit k [].
+Definition race_scheds (ord : list Z) (i : nat) (mid : list MT.envop) : list (list MT.item) :=
+  match skipn i ord with
+  | [] => [map visit0 ord ++ map MT.Env mid]          (* fewer entries than i+1: [mid] happens after the pass *)
+  | cur :: post =>
+      let ns := started_in mid in
+      let post' := filter (fun k => negb (existsb (Z.eqb k) ns)) post in
+      map (fun extra => map visit0 (firstn i ord) ++ MT.Visit cur mid :: map visit0 post' ++ map visit0 extra)
+          (subsets ns)
   end.
 Fixpoint zins (x : Z) (l : list Z) : list Z :=
   match l with [] => [x] | y :: r => if x <=? y then x :: l else y :: zins x r end.
@@ -107,8 +121,8 @@ Definition mphase_step (maxrt ack : Z) (cands : list MT.tbl) (p : mphase) : list
   | MEnv o => map (fun m => MT.env_step m o) cands
   | MTick now => map (fun m => MT.tick (MT.mkC now maxrt ack) (MT.keys m) m) cands
   | MRace now i mid =>
-      flat_map (fun m => map (fun ord => MT.run (MT.mkC now maxrt ack) (race_sched ord i mid) m)
-                             (if (length m <=? 5)%nat then perms (MT.keys m) else [MT.keys m])) cands
+      flat_map (fun m => flat_map (fun ord => map (fun sch => MT.run (MT.mkC now maxrt ack) sch m) (race_scheds ord i mid))
+                                  (if (length m <=? 5)%nat then perms (MT.keys m) else [MT.keys m])) cands
   | MObs lft => filter (fun m => zlist_eqb (zsort1 (MT.keys m)) lft) cands
   end.
 Definition agrees_mid (maxrt ack : Z) (ph : list mphase) : bool :=
